@@ -191,10 +191,13 @@ class NetworkXGraphStorageDisjoint:
             return new_id
 
     storage_instance = None
+    # guards the creation of the one instance: two threads using the store for the first time must end up sharing it
+    creation_lock = threading.Lock()
 
     def __init__(self, logger=None):
-        if not NetworkXGraphStorageDisjoint.storage_instance:
-            NetworkXGraphStorageDisjoint.storage_instance = NetworkXGraphStorageDisjoint.__NetworkXGraphStorage(logger)
+        with NetworkXGraphStorageDisjoint.creation_lock:
+            if not NetworkXGraphStorageDisjoint.storage_instance:
+                NetworkXGraphStorageDisjoint.storage_instance = NetworkXGraphStorageDisjoint.__NetworkXGraphStorage(logger)
 
     def __getattr__(self, name):
         return getattr(self.storage_instance, name)
